@@ -95,3 +95,27 @@ Proof.
   destruct H as [_ H]. destruct (nodup_uid new) eqn:Nn; [|reflexivity]. cbn [negb orb].
   apply nodup_uid_iff, H, nodup_uid_iff, Nn.
 Qed.
+
+(* every call of a session satisfies the contract for the parameters in force at that call,
+   whatever was configured or called before *)
+Definition call_ok (c : op_call) (r : option (list ind)) : Prop :=
+  match c with
+  | CallSelection t o d population ps =>
+      let n := if Nat.eqb ps 0 then d else ps in
+      exists out, r = Some out /\ incl out population /\
+        (2 <= n_distinct population -> NoDup (map uid out) /\ length out = Nat.min n (n_distinct population)) /\
+        (n_distinct population = 1 -> exists x, In x population /\ out = repeat x n)
+  | CallElitism p cs best new =>
+      exists out, r = Some out /\ eli_holds_b p best new out = true /\
+        (e_type p = KeepNBest \/ ahead_of_head worse best new < length new -> eli_head_b p best new out = true)
+  | CallInheritance sc t o ps prev new => inh_holds_b sc ps prev new r = true
+  end.
+
+Theorem session_contract calls : Forall2 call_ok calls (run_session calls).
+Proof.
+  unfold run_session. induction calls as [|c calls IH]; simpl; constructor; [|exact IH].
+  destruct c; simpl.
+  - exact (selection_contract_g better dom t o population _).
+  - exists (elitism p cs best new). split; [reflexivity|]. split; [apply model_eli_holds_b|apply model_eli_head_b].
+  - apply model_inh_holds_b.
+Qed.
